@@ -275,7 +275,9 @@ def _ippo_masks(ck: Check, repo: Repo, rule: str = "C14.7") -> None:
     ck.floor(rule, n, 1, "combination of a policy group's masks", fn=fn)
     # the consumer reshapes by view(): it relies on identical element order
     ap = repo.fn("agilerl.networks.distributions", "EvolvableDistribution.apply_mask")
-    ck.ob(rule, ap, ap.node, has(ap.node, "$_.view($_.shape)"), "apply_mask reinterprets the mask with the logits' shape by view(): element order must already agree",
+    reinterprets = has(ap.node, "$_.view($_.shape)") or has(ap.node, "$_.reshape($_.shape)") or has(ap.node, "$_.view($_.size())") or has(ap.node, "$_.reshape($_.size())") \
+        or has(ap.node, "$_.view_as($_)") or has(ap.node, "$_.reshape_as($_)")
+    ck.ob(rule, ap, ap.node, reinterprets, "apply_mask reinterprets the mask with the logits' shape by view(): element order must already agree",
           construct="apply_mask view")
 
 
